@@ -4,7 +4,8 @@ from units.u_resolver import unit as ur
 FIN = "src/asm/resolver/instruction.rs"
 FM = "src/asm/matcher/mod.rs"
 RIMPL = "InstructionMatchResolution"
-WHY29 = "iterator adapter chain -> prelude wrapper whose assumed contract is what the std adapters compute"
+WHY29 = "iterator adapter chain -> prelude wrapper taking the chain's closures unchanged; assumed: what the std adapters compute from closures that meet the stated requirements"
+CL = r"(\|\w+\| (?:[^()]|\((?:[^()]|\([^()]*\))*\))*?)"
 
 is_resolved = Fn(FM, "is_resolved", impl=RIMPL, slot="asm", ret="res", key="InstructionMatchResolution::is_resolved", props=["C02"],
     ensures=[C("resolved", "res == (self is Resolved)", ["C02"])])
@@ -64,13 +65,20 @@ resolve_encoding = Fn(FIN, "resolve_encoding", slot="resolver", ret="res", key="
         C("unique_when_guessing_is_forbidden", "res is Ok && res->Ok_0 is Some && ctx.is_last_iteration ==> %s@.len() == 1" % CHOSEN, ["C02"]),
     ],
     rewrites=[
-        Rewrite(r"matches\s*\.iter\(\)\s*\.filter\(\|m\| m\.encoding\.is_resolved\(\)\)\s*\.count\(\)", "verif_count_resolved(matches)", regex=True, rule="R29", why=WHY29),
-        Rewrite(r"matches\s*\.iter\(\)\s*\.enumerate\(\)\s*\.filter\(\|m\| m\.1\.encoding\.is_resolved\(\)\)\s*\.map\(\|m\| \(m\.0, m\.1\.encoding\.unwrap_resolved\(\)\)\)\s*\.collect::<Vec<_>>\(\)", "verif_resolved_encodings(matches)", regex=True, rule="R29", why=WHY29),
-        Rewrite(r"encodings_resolved\s*\.iter\(\)\s*\.map\(\|e\| e\.1\.size\.unwrap\(\)\)\s*\.min\(\)\s*\.unwrap\(\)", "verif_min_size(&encodings_resolved)", regex=True, rule="R29", why=WHY29),
-        Rewrite(r"encodings_resolved\s*\.iter\(\)\s*\.filter\(\|e\| e\.1\.size\.unwrap\(\) == smallest_size\)\s*\.copied\(\)\s*\.collect::<Vec<_>>\(\)", "verif_with_size(&encodings_resolved, smallest_size)", regex=True, rule="R29", why=WHY29),
+        Rewrite(r"matches\s*\.iter\(\)\s*\.filter\(" + CL + r"\)\s*\.count\(\)", r"verif_count_resolved(matches, \1)", regex=True, rule="R29", why=WHY29),
+        Rewrite(r"matches\s*\.iter\(\)\s*\.enumerate\(\)\s*\.filter\(" + CL + r"\)\s*\.map\(" + CL + r"\)\s*\.collect::<Vec<_>>\(\)", r"verif_resolved_encodings(matches, \1, \2)", regex=True, rule="R29", why=WHY29),
+        Rewrite(r"encodings_resolved\s*\.iter\(\)\s*\.map\(" + CL + r"\)\s*\.min\(\)\s*\.unwrap\(\)", r"verif_min_size(&encodings_resolved, \1)", regex=True, rule="R29", why=WHY29),
+        Rewrite(r"encodings_resolved\s*\.iter\(\)\s*\.filter\(" + CL + r"\)\s*\.copied\(\)\s*\.collect::<Vec<_>>\(\)", r"verif_with_size(&encodings_resolved, smallest_size, \1)", regex=True, rule="R29", why=WHY29),
         Rewrite("            for mtch in matches\n", "            for mtch in &*matches\n", rule="R21", why="`for x in REF` over a `&mut Vec` that is only read: iterate the shared reborrow (the loop reads the elements only)"),
         Rewrite("        for encoding in smallest_encodings\n", "        for encoding in &smallest_encodings\n", rule="R21", why="by-value iteration over a Vec of Copy pairs that is not used afterwards -> iterate by reference"),
     ],
+    closures={
+        1: ("|m: &&asm::InstructionMatch| -> (r: bool)\n            ensures r == match_resolved(**m)\n       ", ""),
+        2: ("|m: &(usize, &asm::InstructionMatch)| -> (r: bool)\n            ensures r == match_resolved(*m.1)\n       ", ""),
+        3: ("|m: (usize, &asm::InstructionMatch)| -> (r: (usize, &util::BigInt))\n            requires match_resolved(*m.1)\n            ensures r.0 == m.0 && *r.1 == m.1.encoding->Resolved_0\n       ", ""),
+        4: ("|e: &(usize, &util::BigInt)| -> (r: usize)\n            requires e.1.size is Some\n            ensures r == e.1.size->0\n       ", ""),
+        5: ("|e: &&(usize, &util::BigInt)| -> (r: bool)\n            requires e.1.size is Some\n            ensures r == (e.1.size->0 == smallest_size)\n       ", ""),
+    },
     for_to_while=[1, 2],
     loops={
         1: Loop(invariant=[C("kept", "report.msgs() == old(report).msgs() && report.errors() == old(report).errors() && report.parents() == old(report).parents() && verif_next_1 <= verif_vec_1@.len()")],
